@@ -183,6 +183,23 @@ func (e *Env) c05GenExp(maxBitsA int) c05Exp {
 	return c05Exp{A: a.String(), R: r.String(), C: c.String(), Target: target.String(), MaxVar: mv.String()}
 }
 
+// c05GenStorableExp draws calculation parameters that the module's own validator accepts, i.e. that
+// SetParams / InitGenesis can store.  Since the repair of the C18 finding the validator also rejects
+// values for which the provision cannot be computed (provisionComputable); such draws are discarded
+// here (the overflow behaviour of the formula itself is the subject of the C13 "calc" stream).
+func (e *Env) c05GenStorableExp(maxBitsA int) c05Exp {
+	for {
+		x := e.c05GenExp(maxBitsA)
+		p := inflationtypes.DefaultParams()
+		p.ExponentialCalculation = inflationtypes.ExponentialCalculation{A: c05Dec(x.A), R: c05Dec(x.R), C: c05Dec(x.C),
+			BondingTarget: c05Dec(x.Target), MaxVariance: c05Dec(x.MaxVar)}
+		if p.Validate() == nil {
+			return x
+		}
+		e.Stats.Count("generator:exp-rejected-by-validator(redrawn)")
+	}
+}
+
 func (e *Env) c05GenSplit() (string, string) {
 	st := e.c05Unit()
 	if e.Chance(0.15) { // the chain's default: everything to staking
@@ -597,7 +614,7 @@ func c05GenCase(e *Env, suite string, kase *c05Case, day int64) {
 		e.Stats.Count("epochs:hour-present")
 	}
 	// parameters
-	kase.Params.Exp = e.c05GenExp(120)
+	kase.Params.Exp = e.c05GenStorableExp(120)
 	kase.Params.Staking, kase.Params.Community = e.c05GenSplit()
 	kase.Params.Enable = e.Chance(0.75)
 	// denominations and the bonded ratio
@@ -673,7 +690,7 @@ func c05GenOp(e *Env, suite string, a *app.Canto, ctx sdk.Context, kase *c05Case
 			if e.Chance(0.25) {
 				bits = 300 // the recomputation at the next period boundary overflows LegacyDec: the hook panics
 			}
-			p.Exp = e.c05GenExp(bits)
+			p.Exp = e.c05GenStorableExp(bits)
 			e.Stats.Count("set:decay-parameters")
 		}
 		return c05Op{Kind: "set", Params: &p}
